@@ -107,6 +107,8 @@ pub struct RunOut {
     pub workers_seen: usize,
     pub harness_error: Option<String>,
     pub timings_after: String,
+    pub reuse_hits: usize,
+    pub reuse_nonzero_delta: usize,
 }
 
 fn run_tests(w: &mut World, sc: &TestScenario, filter: Option<&str>, reuse: bool, scheduled: bool) -> RunOut {
@@ -153,6 +155,8 @@ fn run_tests(w: &mut World, sc: &TestScenario, filter: Option<&str>, reuse: bool
         workers_seen,
         harness_error: r.harness_error.or(r.deadlock.map(|d| format!("deadlock: {d}"))),
         timings_after: std::fs::read_to_string(&timings).unwrap_or_default(),
+        reuse_hits: r.trace.iter().filter(|t| t.kind == "reuse.hit").count(),
+        reuse_nonzero_delta: r.trace.iter().filter(|t| t.kind == "reuse.hit" && (t.len != 0 || t.hash != 0)).count(),
     }
 }
 
@@ -161,6 +165,8 @@ pub struct Outcome {
     pub workers_seen: usize,
     pub multi_test_worker: bool,
     pub assignment: Vec<String>,
+    pub reuse_hits: usize,
+    pub reuse_nonzero_delta: usize,
 }
 
 fn diff(a: &Report, b: &Report) -> Option<String> {
@@ -189,7 +195,7 @@ pub fn run(sc: &TestScenario, mode: &str, refs: &mut BTreeMap<String, Report>) -
     if let Some(e) = out.harness_error {
         return Err(e);
     }
-    let mut o = Outcome { violation: None, workers_seen: out.workers_seen, multi_test_worker: false, assignment: out.assignment.clone() };
+    let mut o = Outcome { violation: None, workers_seen: out.workers_seen, multi_test_worker: false, assignment: out.assignment.clone(), reuse_hits: out.reuse_hits, reuse_nonzero_delta: out.reuse_nonzero_delta };
     let mut per: BTreeMap<&String, usize> = BTreeMap::new();
     for a in &out.assignment {
         *per.entry(a).or_default() += 1;
@@ -316,6 +322,8 @@ pub fn check(mode: &str, tier: &str) -> i32 {
                 if o.workers_seen >= 2 {
                     probes.inc("schedule.two_or_more_workers_ran_tests");
                 }
+                probes.add("reuse.dut_cache_hits", o.reuse_hits as u64);
+                probes.add("reuse.hits_relocated_by_nonzero_delta", o.reuse_nonzero_delta as u64);
                 let sched = simcore::fsutil::hash_u64(format!("{:?}{:?}{}{}", sc.order, o.assignment, sc.layout, sc.test_seed).as_bytes());
                 if sc.workers > 1 || sc.order != TEST_NAMES.iter().map(|s| s.to_string()).collect::<Vec<_>>() {
                     distinct.insert(sched);
@@ -336,7 +344,7 @@ pub fn check(mode: &str, tier: &str) -> i32 {
             }
         }
     }
-    let need: &[&str] = if mode == "C32" { &["schedule.a_worker_ran_two_or_more_tests", "schedule.two_or_more_workers_ran_tests", "workers.1"] } else { &["schedule.a_worker_ran_two_or_more_tests", "workers.1"] };
+    let need: &[&str] = if mode == "C32" { &["schedule.a_worker_ran_two_or_more_tests", "schedule.two_or_more_workers_ran_tests", "workers.1"] } else { &["schedule.a_worker_ran_two_or_more_tests", "workers.1", "reuse.dut_cache_hits", "reuse.hits_relocated_by_nonzero_delta"] };
     for p in need {
         if probes.get(p) == 0 {
             rep.harness_error(&format!("reach probe {p} stayed at zero"));
